@@ -8,7 +8,8 @@ qha        QHA.__init__/run/_set_thermal_expansion executed in E2 with fit_to_eo
            stubs (fresh symbols per call, arguments recorded): the energies handed to the fitter at temperature i are
            fe_phonon[i]/EvTokJmol + el[i or :] + P V/EVAngstromToGPa for all values; V(T), G(T), B(T) are the fitter's
            outputs (B scaled by EVAngstromToGPa); thermal expansion is the documented central difference; t_max selects the
-           documented number of points; numerical C_P = -T x three-point second difference of G(T) (numpy.polyfit through three
+           documented number of points; fit_to_eos/EOSFit hand leastsq residuals eos(V_i; p) - E_i with the caller's (V_i, E_i) pairing for
+           volume grids in any order (leastsq itself is a contract stub); numerical C_P = -T x three-point second difference of G(T) (numpy.polyfit through three
            points is an exact interpolation and is evaluated as such); the caller's input arrays are not modified.
 """
 import numpy as np
@@ -25,6 +26,7 @@ PID = "C20"
 def units(tier):
     u = [("eos", n) for n in ("vinet", "birch_murnaghan", "murnaghan")]
     u += [("qha", 1, True, None), ("qha", 2, True, None), ("qha", 1, False, None), ("qha", 1, True, 2), ("qha", 2, True, 3)]
+    u += [("eosfit", o) for o in ("ascending", "descending", "shuffled")]
     if tier == "thorough":
         u += [("qha", e, p, t) for e in (1, 2) for p in (True, False) for t in (None, 2, 3) if ("qha", e, p, t) not in u]
     return u
@@ -399,6 +401,88 @@ def replay_cp():
     return d > 1e-6, "numerical C_P differs by %.3g J/K/mol from -T d2G/dT2 for Gibbs energies exactly quadratic in T" % d
 
 
+# ------------------------------------------------------------------------------------------------ what the least-squares routine is given
+EOSFIT_V = {"ascending": [60.0, 62.0, 64.0, 66.0, 68.0, 70.0], "descending": [70.0, 68.0, 66.0, 64.0, 62.0, 60.0], "shuffled": [64.0, 70.0, 60.0, 68.0, 62.0, 66.0]}
+
+
+def eosfit_unit(u, res):
+    """fit_to_eos / EOSFit executed in E2 with *symbolic energies* on volume grids in ascending, descending and arbitrary order;
+    scipy.optimize.leastsq is a contract stub that evaluates the residual function it is handed on symbolic parameters: residual i must
+    be eos(V_i; p) - E_i with the caller's pairing of volumes and energies, for all energies and parameters (the fitted parameters
+    themselves are scipy's business)."""
+    harness.setup()
+    import scipy.optimize as so
+    import phonopy.qha.eos as eosm
+    order = u[1]
+    vols = np.array(EOSFIT_V[order])
+    n = len(vols)
+    es = harness.reals("E", n)
+    ps = harness.reals("p", 4)
+    A = harness.box(es, -10, 10) + harness.box(ps, -5, 5)
+    seen = {}
+
+    def quad(v, e0, b, bp, v0):                      # any callable is accepted as an equation of state; this one is polynomial
+        return e0 + b * (v - 64.0) + bp * (v - 64.0) * (v - 64.0) + v0 * 0.0
+
+    def leastsq_stub(func, x0, args=(), full_output=0, **kw):
+        seen["x0"] = list(x0)
+        seen["res"] = func([SR(p) for p in ps], *args)
+        return (np.array([0.0, 1.0, 4.0, 64.0]), None, {}, "", 1)
+    old = so.leastsq
+    so.leastsq = leastsq_stub
+    try:
+        with symnp.session({"phonopy.qha.eos"}):
+            E_in = symnp.wrap_reals(es)
+            keep = [x for x in E_in]
+            eosm.fit_to_eos(vols.copy(), E_in, quad)
+    finally:
+        so.leastsq = old
+    if "res" not in seen:
+        raise HarnessError("leastsq was not called")
+    got = symnp.unwrap(np.asarray(seen["res"], dtype=object))
+    want = [ps[0] + ps[1] * Fraction(float(v - 64.0)) + ps[2] * Fraction(float((v - 64.0) ** 2)) - e for v, e in zip(vols, es)]
+    # the routine may reorder the data points, but then volumes and energies together: compare as multisets through a sort by volume
+    key = "%s:eosfit:%s" % (PID, order)
+    perm_ok = False
+    if len(got) == n:
+        # identify, for each residual, which data point it belongs to by its (concrete) volume polynomial: try all alignments by volume order
+        cand = [list(range(n)), list(np.argsort(vols))]
+        for perm in cand:
+            goal = z3.Or([z3.Or(harness.to_term(got[k]) - want[perm[k]] > Fraction(1, 10 ** 9), want[perm[k]] - harness.to_term(got[k]) > Fraction(1, 10 ** 9)) for k in range(n)])
+            v, m = solve(res, "residuals handed to leastsq == eos(V_i; p) - E_i with the caller's (V_i, E_i) pairs (%s grid, alignment %s)" % (order, "as given" if perm == cand[0] else "sorted by volume"), A + [goal], timeout_ms=30000, record=(perm == cand[0]))
+            if v == "unsat":
+                perm_ok = True
+                if perm != cand[0]:
+                    res.queries[-1]["verdict"] = "unsat"
+                break
+    if not perm_ok:
+        ok2, what = replay_eosfit(order)
+        (res.violations if ok2 else res.unconfirmed).append({"key": key, "what": what, "replay": {"order": order}})
+        if res.queries and res.queries[-1]["verdict"] == "sat":
+            pass
+    same = all(a is b for a, b in zip(keep, E_in))
+    res.queries.append({"name": "energies handed to fit_to_eos are not modified [aliasing]", "verdict": "unsat" if same else "sat", "seconds": 0.0, "nvars": n, "nontrivial": True, "hash": "eosfit-alias-" + order})
+    res.twins.append({"name": "eosfit twin: residuals depend on the symbols", "verdict": "sat" if any(isinstance(t, z3.ExprRef) for t in got) else "unsat"})
+    res.samples.append({"unit": res.unit, "volumes": vols.tolist(), "symbols": n + 4})
+    return res
+
+
+@symnp.outside_session
+def replay_eosfit(order):
+    """concrete: exact Vinet data on the grid; the real fit must recover the parameters whatever the order of the points"""
+    import phonopy.qha.eos as eosm
+    vols = np.array(EOSFIT_V[order])
+    p = [-10.0, 0.6, 4.6, 64.3]
+    f = eosm.get_eos("vinet")
+    e = f(vols, *p)
+    try:
+        got = eosm.fit_to_eos(vols, e, f)
+    except Exception as exc:
+        return True, "fit_to_eos fails on exact Vinet data on a %s volume grid: %s: %s" % (order, type(exc).__name__, exc)
+    d = float(np.abs(np.array(got) - np.array(p)).max())
+    return d > 1e-5, "fit_to_eos on exact Vinet data given on a %s volume grid returns (E0,B0,B0',V0)=%s instead of %s" % (order, np.round(got, 5).tolist(), p)
+
+
 def _ground(res, name, ok, key, what):
     res.queries.append({"name": name + " [ground fact]", "verdict": "unsat" if ok else "sat", "seconds": 0.0, "nvars": 0, "nontrivial": False, "hash": "ground"})
     if not ok:
@@ -463,6 +547,8 @@ def replay_alias(el_ndim, with_p):
 
 def run_unit(u):
     res = Result("/".join(str(x) for x in u))
+    if u[0] == "eosfit":
+        return eosfit_unit(u, res)
     return eos_unit(u, res) if u[0] == "eos" else qha_unit(u, res)
 
 
@@ -470,7 +556,8 @@ def main(tier, seed):
     chk = Check(PID, tier, seed)
     harness.setup()
     us = units(tier)
-    chk.bounds = ["EOS parameters: V0 in (0,1000), B0 in (0,100), B0' in (1.5,10)", "QHA: 5 volumes x 5 temperatures, electronic energies of shape (V) and (T,V), pressure symbolic in [0,50] GPa or None, t_max None / T[2] / T[3]"]
+    chk.bounds = ["EOS parameters: V0 in (0,1000), B0 in (0,100), B0' in (1.5,10)", "QHA: 5 volumes x 5 temperatures, electronic energies of shape (V) and (T,V), pressure symbolic in [0,50] GPa or None, t_max None / T[2] / T[3]",
+                  "eosfit: 6 volumes in ascending, descending and shuffled order, energies in [-10,10], parameters in [-5,5], a polynomial stand-in equation of state"]
     chk.outside = ["recovery of parameters by scipy.optimize.leastsq (the fitter is a contract stub)", "degree-4 polynomial fits of C_V and S in volume (numpy.polyfit stubbed unless it is an exact interpolation)", "heat_capacity_P_polyfit, Grueneisen parameter values"]
     chk.assumptions = ["pow/exp uninterpreted with the instances pow(1,c)=1, exp(0)=1; x/x -> 1 under V0 != 0", "fit_to_eos returns four unconstrained symbols per call"]
     chk.run_units(run_unit, us)
